@@ -205,16 +205,23 @@ class ByCountProfilerMixin:
         async def wrapper(*args, **kwds):
             g = func(*args, **kwds)
             # Async generators are started by `.asend(None)`
-            input_ = None
+            method, input_ = g.asend, None
             while True:
                 self.enable_by_count()
                 try:
-                    item = (await g.asend(input_))
+                    item = (await method(input_))
                 except StopAsyncIteration:
                     return
                 finally:
                     self.disable_by_count()
-                input_ = (yield item)
+                # Forward what the caller does with the wrapper
+                # (`.asend()`, `.athrow()`, `.aclose()`) to `g`
+                try:
+                    input_ = (yield item)
+                except BaseException as e:
+                    method, input_ = g.athrow, e
+                else:
+                    method = g.asend
 
         return self._mark_wrapped(wrapper)
 
@@ -249,16 +256,23 @@ class ByCountProfilerMixin:
         def wrapper(*args, **kwds):
             g = func(*args, **kwds)
             # Generators are started by `.send(None)`
-            input_ = None
+            method, input_ = g.send, None
             while True:
                 self.enable_by_count()
                 try:
-                    item = g.send(input_)
-                except StopIteration:
-                    return
+                    item = method(input_)
+                except StopIteration as e:
+                    return e.value
                 finally:
                     self.disable_by_count()
-                input_ = (yield item)
+                # Forward what the caller does with the wrapper
+                # (`.send()`, `.throw()`, `.close()`) to `g`
+                try:
+                    input_ = (yield item)
+                except BaseException as e:
+                    method, input_ = g.throw, e
+                else:
+                    method = g.send
 
         return self._mark_wrapped(wrapper)
 
